@@ -147,3 +147,88 @@ class plain_numpy:
         if 'hash_args' in self._had:
             install_hash_tobytes()
         return False
+
+
+# ---- row-wise unique of coordinate arrays (Mesh._remove_duplicate_nodes / __add__ / __matmul__) -------------------------------------
+class _Rows(np.ndarray):
+    """Object array of points (one row per point) that remembers it may be viewed as one structured item per row."""
+
+    def view(self, *args, **kw):
+        dt = args[0] if args else kw.get('dtype')
+        # tmp.view([('', tmp.dtype)] * ncols) or an opaque item of the size of one row: "one comparable item per row"
+        one_item_per_row = isinstance(dt, list)
+        if not one_item_per_row and dt is not None and not isinstance(dt, type):
+            try:
+                one_item_per_row = np.dtype(dt).itemsize == self.dtype.itemsize * self.shape[1]
+            except Exception:   # noqa
+                one_item_per_row = False
+        if one_item_per_row:
+            return np.ndarray.view(self, _RowKeys)
+        return np.ndarray.view(self, *args, **kw)
+
+
+class _RowKeys(np.ndarray):
+    pass
+
+
+def install_row_unique(h):
+    """Environment model, symbolic mode only: np.ascontiguousarray(p.T).view(<one field per column>) followed by
+    np.unique(..., return_index=True, return_inverse=True) is NumPy's idiom for 'distinct rows in lexicographic order'.  Object arrays
+    cannot be viewed as structured items, so the same CONTRACT is provided on symbolic rows: rows are compared column by column with the
+    symbolic comparisons of their entries (each comparison is a branch of the explorer), the result is (sorted distinct rows, index of
+    the first occurrence of each, inverse map).  ndarray.round(decimals=8) of symbolic entries is the identity (assumption recorded by
+    the caller: coordinates are multiples of 1e-8)."""
+    import functools
+    from . import symnp
+    from .sym import Sym, tosym
+    P = symnp.NPProxy
+    if getattr(P, '_row_unique', False):
+        return
+    P._row_unique = True
+    h.stub('np.ascontiguousarray(p.T).view(struct) + np.unique(return_index, return_inverse) on symbolic points -> distinct rows in '
+           'lexicographic order decided by symbolic comparisons (same contract); Sym.rint = identity (coordinates assumed multiples of 1e-8)')
+    orig_asc = P.ascontiguousarray
+    orig_unique = getattr(P, 'unique', None)
+
+    def ascontiguousarray(self, a, dtype=None, **kw):
+        out = orig_asc(self, a, dtype=dtype, **kw)
+        if isinstance(out, np.ndarray) and out.dtype == object and out.ndim == 2:
+            return out.view(_Rows)
+        return out
+
+    def unique(self, a, *args, **kw):
+        if isinstance(a, _RowKeys):
+            rows = [list(np.ndarray.view(a, np.ndarray)[i]) for i in range(a.shape[0])]
+
+            def cmp(i, j):
+                for x, y in zip(rows[i], rows[j]):
+                    sx, sy = tosym(x), tosym(y)
+                    if sx is sy:
+                        continue
+                    if bool(sx == sy):
+                        continue
+                    return -1 if bool(sx < sy) else 1
+                return 0
+            order = sorted(range(len(rows)), key=functools.cmp_to_key(lambda i, j: cmp(i, j) or (i - j)))
+            uniq, first, inverse = [], [], [0] * len(rows)
+            for i in order:
+                if uniq and cmp(uniq[-1], i) == 0:
+                    inverse[i] = len(uniq) - 1
+                    first[-1] = min(first[-1], i)
+                else:
+                    uniq.append(i)
+                    first.append(i)
+                    inverse[i] = len(uniq) - 1
+            res = [np.array([rows[i] for i in uniq], dtype=object)]
+            if kw.get('return_index'):
+                res.append(np.array(first, dtype=np.int64))
+            if kw.get('return_inverse'):
+                res.append(np.array(inverse, dtype=np.int64))
+            return tuple(res) if len(res) > 1 else res[0]
+        if orig_unique is not None:
+            return orig_unique(self, a, *args, **kw)
+        return np.unique(a, *args, **kw)
+    P.ascontiguousarray = ascontiguousarray
+    P.unique = unique
+    if not hasattr(Sym, 'rint'):
+        Sym.rint = lambda s: s
